@@ -15,6 +15,7 @@ open CGen LayM
 structure St where
   types : List (String × Ty) := []
   objs : List (String × (Ty × Nat)) := []
+  pvals : List (String × Lay.Val) := []      -- proof-model value of reference-free objects (while known)
   buf : Buf := { alloc := { capacity := 0, chunks := [], align := 1, growStep := none }, mem := #[] }
 def parsePath (s : String) : List Step :=
   if s == "-" then [] else
@@ -62,10 +63,13 @@ def step (s : St) (line : String) : St × String :=
             some s!"PROOF-MODEL-DIFFERS read {Drv.LayP.showP t (Lay.readD tp img o')}"
           else none
         | _, _ => none
+      let pv := match Drv.LayP.valP t v with
+        | some vp => (hname, vp) :: s.pvals
+        | none => s.pvals.filter (·.1 != hname)
       match pm with
       | some e => ({ s with buf := b, objs := (hname, (t, o)) :: s.objs }, e)
       | none =>
-      ({ s with buf := b, objs := (hname, (t, o)) :: s.objs }, s!"off {o} size {vsize t v} cap {b.alloc.capacity} mem {LayM.hexOf b.mem}")
+      ({ s with buf := b, objs := (hname, (t, o)) :: s.objs, pvals := pv }, s!"off {o} size {vsize t v} cap {b.alloc.capacity} mem {LayM.hexOf b.mem}")
     | _, _ => (s, "bad-op")
   | ["deep", h, path] =>
     match s.objs.lookup h with
@@ -103,8 +107,26 @@ def step (s : St) (line : String) : St × String :=
              | .ok m' => m' == b.mem.toList && e.isNone
              | .error _ => e.isSome && b.mem.toList == s.buf.mem.toList)
           | _, _ => true
+        -- the proof model's PATH machinery (`leafAt`, `updAt`) on the same assignment: the leaf's address and width, and
+        -- the whole object's value afterwards
+        let (pl, pv) : Option String × List (String × Lay.Val) :=
+          match tt, v, Drv.LayP.tyP t, s.pvals.lookup h with
+          | .scalar sc, .bits x, some tp, some vp =>
+            (match Drv.LayP.pathP t vp (parsePath path) with
+             | some pp =>
+               (match Lay.leafAt tp vp pp, Lay.updAt tp vp pp x with
+                | some (lo, w), some vp' =>
+                  if o + lo != a || w != sc.size then (some s!"PROOF-MODEL-DIFFERS leaf {o + lo} {w}", s.pvals)
+                  else if Drv.LayP.showP t vp'.norm != deep b.mem t o then (some s!"PROOF-MODEL-DIFFERS upd {Drv.LayP.showP t vp'.norm}", s.pvals)
+                  else (none, (h, vp') :: s.pvals.filter (·.1 != h))
+                | _, _ => (some "PROOF-MODEL-DIFFERS leaf none", s.pvals))
+             | none => (some "PROOF-MODEL-DIFFERS path", s.pvals))
+          | _, _, _, _ => (none, s.pvals.filter (·.1 != h))
         if !pm then ({ s with buf := b }, "PROOF-MODEL-DIFFERS assign") else
-        ({ s with buf := b }, (match e with | none => "ok" | some e => s!"err {e.str}") ++ s!" cap {b.alloc.capacity} mem {LayM.hexOf b.mem}")
+        match pl with
+        | some e => ({ s with buf := b }, e)
+        | none =>
+        ({ s with buf := b, pvals := pv }, (match e with | none => "ok" | some e => s!"err {e.str}") ++ s!" cap {b.alloc.capacity} mem {LayM.hexOf b.mem}")
       | .error e => (s, s!"err {e.str} cap {s.buf.alloc.capacity} mem {LayM.hexOf s.buf.mem}")
     | _, _ => (s, "bad-op")
   | _ => (s, "bad-op")
